@@ -36,6 +36,16 @@ rules, see there) plus these node-level rules:
   * `self.peers().NAME(..)` = a call into the p2p crate: `!callback` (p2p's own locks are outside).
 Output: lean/GrinVerif/Gen/LocksNode.lean, `GV.Gen.nodeTable : List (String × List (Ev NLock))`.
 
+Increment 2: servers/src/grin/sync/{state_sync,header_sync,body_sync,syncer}.rs are entry points
+(`self.chain.op(..)`, `self.sync_state.op(..)`, `desegmenter.write()` / `try_write()` + `d.op(..)`), and p2p/src/peers.rs
+`impl Peers` is translated: `Peers.peers` (p2pPeers), `Peers.blocked` (p2pBlocked) with their TIMED acquisitions
+(`try_read_for` / `try_write_for`: an acquisition for the order graph; a timed-out attempt returns an error instead
+of waiting for ever, which the model does not use), the per-peer data locks `live_info` / `received_bytes` /
+`sent_bytes` (p2pPeerData, leaves).  `self.peers().op(..)` / `self.peers.op(..)` inline `Peers::op`; the p2p-facing
+trait impls of `Peers` (`impl ChainAdapter for Peers`: block_received, transaction_received, …) call
+`self.adapter.op(..)` = `NetToChainAdapter::op`, inlined.  A stored closure that locks is accepted when it releases
+everything it takes and is emitted where it is written.  Still a `!callback` mark: calls on a `Peer`
+(send_* = the `send_handle` Mutex and the connection's channels).
 NOT covered: api/ handlers (they take `tx_pool.read()/write()` through a Weak and call the same
 TransactionPool methods; shapes `w(&self.tx_pool)?.read()` are not translated), servers/src/grin/sync/*
 (they call chain ops and SyncState methods one after the other, holding nothing of their own except the
@@ -56,7 +66,13 @@ NODE_LOCK_FIELDS = {
     ("SyncState", "current"): "syncCur",
     ("SyncState", "sync_error"): "syncErr",
     ("SyncState", "requested_pibd_segments"): "syncSegs",
+    ("Peers", "peers"): "p2pPeers",
+    ("Peers", "blocked"): "p2pBlocked",
 }
+SYNC_IMPLS = ("StateSync", "HeaderSync", "BodySync", "SyncRunner")
+TIMED = ("try_read_for", "try_write_for", "try_read", "try_write")
+# per-peer leaf data locks of the p2p crate reached through a field chain ending in one of these names
+PEER_DATA_LOCKS = ("live_info", "received_bytes", "sent_bytes")
 NODE_SUBOBJECTS = {("TransactionPool", "txpool"): "Pool", ("TransactionPool", "stempool"): "Pool"}
 # field -> impl whose method of the same name is what runs (the concrete types servers/ instantiates)
 DISPATCH_FIELDS = {
@@ -64,13 +80,18 @@ DISPATCH_FIELDS = {
     ("Pool", "blockchain"): "PoolToChainAdapter",
     ("TransactionPool", "adapter"): "PoolToNetAdapter",
     ("NetToChainAdapter", "sync_state"): "SyncState",
+    ("StateSync", "sync_state"): "SyncState",
+    ("HeaderSync", "sync_state"): "SyncState",
+    ("BodySync", "sync_state"): "SyncState",
+    ("SyncRunner", "sync_state"): "SyncState",
+    ("Peers", "adapter"): "NetToChainAdapter",
 }
 # identifiers (parameters / locals, not preceded by `.`) standing for a lock or an object
-IDENT_LOCKS = {"tx_pool": "pool", "header_pmmr": "hp", "txhashset": "ts"}
+IDENT_LOCKS = {"tx_pool": "pool", "header_pmmr": "hp", "txhashset": "ts", "desegmenter": "deseg"}
 IDENT_OBJECTS = {"adapter": "PoolToNetAdapter"}
 GUARD_OBJECT = {"pool": "TransactionPool"}
 CHAIN_LOCKS = ("orph", "hidx", "segm", "deseg", "hp", "ts", "batch", "deny")
-NODE_LOCKS = ("pool", "reorg", "dand", "secp", "syncCur", "syncErr", "syncSegs")
+NODE_LOCKS = ("pool", "reorg", "dand", "secp", "syncCur", "syncErr", "syncSegs", "p2pPeers", "p2pBlocked", "p2pPeerData")
 ARC_GETTERS = ("header_pmmr", "txhashset", "store")
 
 FILES = [
@@ -80,6 +101,11 @@ FILES = [
     "chain/src/types.rs",
     "servers/src/mining/mine_block.rs",
     "servers/src/grin/dandelion_monitor.rs",
+    "servers/src/grin/sync/state_sync.rs",
+    "servers/src/grin/sync/header_sync.rs",
+    "servers/src/grin/sync/body_sync.rs",
+    "servers/src/grin/sync/syncer.rs",
+    "p2p/src/peers.rs",
 ]
 
 
@@ -127,16 +153,27 @@ class NodeTranslator(G.Translator):
         r = super().lock_call_at(items, i, ctx)
         if r: return r
         t = at(items, i)
+        impl = ctx["impl"]
+        # self.FIELD.try_write_for(TIMEOUT) / try_read_for(..): a timed acquisition is an acquisition
+        if is_id(t, "self") and is_p(at(items, i + 1), ".") and is_id(at(items, i + 2)) and is_p(at(items, i + 3), ".") \
+                and is_id(at(items, i + 4)) and items[i + 4].text in TIMED and is_grp(at(items, i + 5), "(") \
+                and (impl, items[i + 2].text) in self.lock_fields:
+            return (self.lock_fields[(impl, items[i + 2].text)], "R" if "read" in items[i + 4].text else "W", 6)
+        # ….live_info.read() / .received_bytes.read() / .sent_bytes.read(): per-peer data locks of p2p (leaves)
+        if t is not None and t.kind == "id" and t.text in PEER_DATA_LOCKS and is_p(at(items, i - 1), ".") \
+                and is_p(at(items, i + 1), ".") and is_id(at(items, i + 2)) and items[i + 2].text in ("read", "write") \
+                and is_grp(at(items, i + 3), "(") and not items[i + 3].items:
+            return ("p2pPeerData", "R" if items[i + 2].text == "read" else "W", 4)
         # IDENT.read() / IDENT.write() on a parameter / local that is one of the shared locks
         if t is not None and t.kind == "id" and t.text in IDENT_LOCKS and not is_p(at(items, i - 1), ".") \
-                and is_p(at(items, i + 1), ".") and is_id(at(items, i + 2)) and items[i + 2].text in ("read", "write") \
+                and is_p(at(items, i + 1), ".") and is_id(at(items, i + 2)) and items[i + 2].text in ("read", "write", "try_write", "try_read") \
                 and is_grp(at(items, i + 3), "(") and not items[i + 3].items:
             # not when IDENT currently names a guard (`let mut tx_pool = tx_pool.write();` shadows the Arc)
             if self.guard_lock_of(ctx, t.text) is None:
                 lk = IDENT_LOCKS[t.text]
                 lk = "c_" + lk if lk in CHAIN_LOCKS else lk
                 self.rec["ident-lock"] += 1
-                return (lk, "R" if items[i + 2].text == "read" else "W", 4)
+                return (lk, "R" if "read" in items[i + 2].text else "W", 4)
         if is_id(t, "secp") and not is_p(at(items, i - 1), ".") and is_p(at(items, i + 1), ".") and is_id(at(items, i + 2), "lock") \
                 and is_grp(at(items, i + 3), "(") and not items[i + 3].items:
             if self.guard_lock_of(ctx, "secp") is None:
@@ -163,11 +200,21 @@ class NodeTranslator(G.Translator):
             if is_p(at(items, i + 4), ".") and is_id(at(items, i + 5)) and is_grp(at(items, i + 6), "("):
                 name, args = items[i + 5].text, items[i + 6]
                 if which == "peers":
-                    self.walk(args.items, ctx)
-                    self.emit(ctx, ("mark", "callback", t.line)); self.rec["p2p"] += 1
+                    self.p2p_call(ctx, name, args, t.line)
                     return 7
                 return 4 + self.chain_call(items, i + 4, ctx)
             return 4
+        # ---- self.chain.NAME(args) / self.peers.NAME(args) in the sync runners (fields, not getters)
+        if impl in SYNC_IMPLS and is_id(t, "self") and is_p(at(items, i + 1), ".") and is_id(at(items, i + 2)) \
+                and items[i + 2].text in ("chain", "peers") and is_p(at(items, i + 3), ".") and is_id(at(items, i + 4)) \
+                and is_grp(at(items, i + 5), "("):
+            name = items[i + 4].text
+            if name == "clone":
+                return 6
+            if items[i + 2].text == "peers":
+                self.p2p_call(ctx, name, items[i + 5], t.line)
+                return 6
+            return 3 + self.chain_call(items, i + 3, ctx)
         # ---- chain.NAME(args): `chain` a parameter (mine_block.rs)
         if is_id(t, "chain") and "chain" in ctx.get("params", ()) and not is_p(prev, ".") and not is_p(prev, "::") \
                 and is_p(at(items, i + 1), ".") and is_id(at(items, i + 2)) and is_grp(at(items, i + 3), "("):
@@ -223,6 +270,16 @@ class NodeTranslator(G.Translator):
             return 6
         return 0
 
+    def p2p_call(self, ctx, name, args, line):
+        """a call of a Peers method: its events when it is a pub fn of impl Peers taking self, else a `!callback` mark"""
+        self.walk(args.items, ctx)
+        if ("Peers", name) in self.fns and self.fns[("Peers", name)].has_self:
+            self.inline(ctx, ("Peers", name), line)
+            self.rec["p2p-resolved"] = self.rec.get("p2p-resolved", 0) + 1
+        else:
+            self.emit(ctx, ("mark", "callback", line))
+        self.rec["p2p"] += 1
+
     def chain_call(self, items, j, ctx):
         """items[j:] = . NAME (args) [? . write ( )]; returns tokens consumed"""
         name, args = items[j + 1].text, items[j + 2]
@@ -262,6 +319,24 @@ class NodeTranslator(G.Translator):
                     sc.guards.append(G.Guard(lc[0], var, st[j].line))
                     self.recognised["guard"] += 1
                     return
+            # `let [mut] g = <lock call>.ok_or_else(..)?;` / `let [mut] g = match <lock call> { Some(g) => g, None => .. };`
+            # (p2p/src/peers.rs, timed acquisitions): the guard is moved into `g`, alive to the end of the block
+            if eq is not None:
+                j = eq + 1
+                is_match = is_id(at(st, j), "match")
+                if is_match: j += 1
+                lc = self.lock_call_at(st, j, ctx)
+                if lc:
+                    rest = st[j + lc[2]:]
+                    ok_or = len(rest) >= 3 and is_p(rest[0], ".") and is_id(rest[1]) and rest[1].text in ("ok_or_else", "ok_or", "unwrap", "expect")
+                    if (is_match and len(rest) == 1 and is_grp(rest[0], "{")) or ok_or:
+                        var = st[2].text if is_id(st[1], "mut") else st[1].text
+                        self.acquire(ctx, lc[0], lc[1], st[j].line)
+                        sc.guards.append(G.Guard(lc[0], var, st[j].line))
+                        self.recognised["guard"] += 1
+                        # the rest (closure of ok_or_else / arms of the match) may not lock
+                        self.scratch(rest, ctx, f"tail of the guard binding at line {st[0].line}")
+                        return
         super().stmt(st, ctx, sc)
 
     def inline(self, ctx, key, line):
@@ -293,8 +368,24 @@ class NodeTranslator(G.Translator):
         sub = {"impl": ctx["impl"], "out": [], "scopes": [G.Scope(False)], "temps": [[]], "fn": ctx["fn"], "scratch": 1,
                "status": False, "params": ctx.get("params", ())}
         self.walk(items, sub, stmt_start=False)
-        if sub["out"] or sub["temps"][0]:
-            self.die(f"{what} in fn {ctx['fn']} acquires locks; its execution context is unknown")
+        for lock in reversed(sub["temps"][0]):
+            sub["out"].append(("rel", lock))
+        if sub["out"]:
+            # a stored closure / binding tail that locks: accepted when it releases everything it takes (it holds
+            # nothing when it returns); its events are emitted where it is WRITTEN - an approximation: the held set
+            # at its call sites is assumed to be the one at its definition (body_sync.rs `peers_iter`, called at
+            # once).  Anything else kills the generator.
+            held = []
+            for e in sub["out"]:
+                if e[0] == "acq": held.append(e[1])
+                elif e[0] == "rel":
+                    if e[1] in held: held.remove(e[1])
+                    else: self.die(f"{what} in fn {ctx['fn']} releases a lock it did not take")
+            if held:
+                self.die(f"{what} in fn {ctx['fn']} acquires locks it keeps; its execution context is unknown")
+            for e in sub["out"]:
+                self.emit(ctx, e)
+            self.rec["stored-closure-inlined"] = self.rec.get("stored-closure-inlined", 0) + 1
 
 
 def lean_lock(l):
@@ -329,7 +420,7 @@ def generate(repo_root, die):
 
     # the structs must carry exactly the lock fields of the node alphabet
     for sname in ("NetToChainAdapter", "ChainToPoolAndNetAdapter", "PoolToNetAdapter", "PoolToChainAdapter",
-                  "TransactionPool", "Pool", "SyncState"):
+                  "TransactionPool", "Pool", "SyncState", "Peers", "StateSync", "HeaderSync", "BodySync", "SyncRunner"):
         if sname not in tr.structs: die(f"gen_locks_node: struct {sname} not found")
         for f, ty in tr.structs[sname].items():
             if ("RwLock" in ty or "Mutex" in ty) and (sname, f) not in NODE_LOCK_FIELDS:
@@ -351,6 +442,10 @@ def generate(repo_root, die):
         elif impl in ("TransactionPool", "SyncState") and fd.has_self and fd.pub:
             roots.append((impl + "::" + name, (impl, name)))
         elif impl == "SyncState" and fd.has_self and name.startswith("on_"):
+            roots.append((impl + "::" + name, (impl, name)))
+        elif impl in SYNC_IMPLS and fd.has_self and (fd.pub or name in ("sync_loop", "continue_pibd", "body_sync", "header_sync")):
+            roots.append((impl + "::" + name, (impl, name)))
+        elif impl == "Peers" and fd.has_self:
             roots.append((impl + "::" + name, (impl, name)))
         elif impl is None and name in ("get_block", "build_block", "monitor_transactions", "process_fluff_phase",
                                        "process_expired_entries"):
